@@ -62,6 +62,7 @@ Definition upper (l : bytes) : bytes := map upper_b l.
 
 (* ---- decimal text ---- *)
 Definition digit (n : N) : byte := b_of_N (48 + n)%N.
+Definition is_digit_b (b : byte) : bool := ((48 <=? b2n b) && (b2n b <=? 57))%N.
 
 Fixpoint dec_digits (fuel : nat) (n : N) (acc : bytes) : bytes :=
   match fuel with
